@@ -1,4 +1,6 @@
-(** Wire entry points of property C11: parsing state chain + reader script. *)
+(** Wire entry points of property C11: sub 0: parsing state chain + reader script;
+    sub 1: several parsing states used alternately on one reader. *)
 From Coq Require Import ZArith List.
 From PLV Require Import Base.Wire Tok.TokWire.
-Definition entry (sub : Z) (inp : list Z) : list Z := entry_tok inp.
+Definition entry (sub : Z) (inp : list Z) : list Z :=
+  if Z.eqb sub 1 then entry_tok_multi inp else entry_tok inp.
